@@ -568,6 +568,7 @@ pub(crate) fn add(ctx: &mut TulispContext) {
 
     #[crate_fn(add_func = "ctx")]
     fn append(first: TulispObject, rest: TulispObject) -> Result<TulispObject, Error> {
+        let first = first.deep_copy()?;
         for ele in rest.base_iter() {
             first.append(ele.deep_copy()?)?;
         }
